@@ -137,18 +137,38 @@ def response_page_fetches(w):
     return out
 
 
+def add_boundary_result(cfg, rng, p=0.5):
+    """With a scaled checkpoint limit in force, one child context returns a payload of exactly limit-1 / limit / limit+1
+    serialised characters (a str of n characters serialises to n + 2)."""
+    ck = (cfg.get("limits") or {}).get("ckpt")
+    if not ck or ck < 10 or rng.random() >= p:
+        return
+    sts = [st for st in oracles.statements(cfg["program"]).values() if st["op"] == "child"]
+    if sts:
+        rng.choice(sts)["ret"] = ["big", ck - 2 + rng.choice([-1, 0, 0, 1])]
+
+
 def add_flaky_serdes(cfg, rng, p):
     """User-supplied serialisers are user code too: with probability p, 1-3 step / wait_for_condition / child / callback
     statements get a custom SerDes (around an 'external store') whose k-th serialize or deserialize call fails."""
     if rng.random() >= p:
         return
-    sts = [st for st in oracles.statements(cfg["program"]).values() if st["op"] in ("step", "wfcond", "child", "callback")]
+    sts = [st for st in oracles.statements(cfg["program"]).values() if st["op"] in ("step", "wfcond", "child", "callback", "invoke")]
     sts += [st for st in sts if st["op"] == "wfcond"] * 2  # three operation kinds share the step executor, one does not
     picked = []
     for st in rng.sample(sts, min(len(sts), rng.choice([1, 1, 2, 3]))):
         if any(st is x for x in picked):
             continue
         picked.append(st)
+        if st["op"] == "invoke":
+            # only the payload is encoded by the user's SerDes; the call fails before anything is recorded, user code may
+            # catch that and carry on
+            st["fserdes"] = {"ser": rng.choice([[1], [1], [2], [1, 2]]), "de": []}
+            if rng.random() < 0.7:
+                inner = dict(st)
+                st.clear()
+                st.update({"op": "try", "stmt": inner, "catch": ["Exception"], "handler": []})
+            continue
         st["fserdes"] = {"ser": rng.choice([[], [], [1], [2], [1, 2], [3]]),
                          "de": rng.choice([[], [1], [1], [2], [2], [3], [1, 2], [2, 3], [4], [1, 3]])}
         if rng.random() < 0.4:
@@ -193,6 +213,7 @@ class C01(Check):
 
     def tune(self, cfg, prof, rng):
         add_flaky_serdes(cfg, rng, 0.15)  # a failing user SerDes may fail the call, it must not make anything run again
+        add_boundary_result(cfg, rng)
 
     def oracle(self, ix, cfg, golden):
         return oracles.check_c01(ix) + oracles.check_unexplained_exceptions(ix, cfg, "C01")
@@ -224,6 +245,9 @@ class C02(Check):
             "delivery log compared across invocations and final outcome compared with the fault-free run; non-trivial iff some "
             "position was delivered in >=2 invocations")
     base_profile = {"amo_p": 0.0, "early_exit": False, "rich": True}
+
+    def tune(self, cfg, prof, rng):
+        add_boundary_result(cfg, rng)
 
     def oracle(self, ix, cfg, golden):
         vs = oracles.check_c02(ix) + oracles.check_unexplained_exceptions(ix, cfg, "C02")
@@ -395,8 +419,14 @@ class C06(Check):
         if len(plans) > cap:
             rng.shuffle(plans)
             plans = plans[:cap]
-        for k in response_page_fetches(w)[:2]:
+        rpf = response_page_fetches(w)
+        for k in rng.sample(rpf, min(2, len(rpf))):
             plans.append([{"kind": "apierr", "call": k, "err": rng.choice(classes), "applied": False}])
+        if w.api_calls:
+            # a call that stays in flight for a long time (client-side retries of read timeouts) and then fails
+            k = rng.randrange(1, w.api_calls + 1)
+            plans.append([{"kind": "slow", "call": k, "s": rng.choice([20.0, 61.0, 90.0, 400.0])},
+                          {"kind": "apierr", "call": k, "err": rng.choice(classes), "applied": False}])
         # the calls that carry the START of a step attempt in a later invocation (a retry attempt found READY on replay)
         started, starts, amo_starts = set(), [], []
         amo = amo_positions(cfg["program"])
@@ -514,9 +544,12 @@ class C08(Check):
     rule = ("nested child/map/parallel programs; the same program is run under several schedules and crash plans and all update "
             "streams are checked together: path->Id is a function, injective, ParentId = Id(enclosing context); non-trivial iff "
             "depth >=2 with >=2 sibling branches observed in >=2 invocations")
-    base_profile = {"weights": {"child": 4, "parallel": 4, "map": 3, "step": 5, "wait": 3, "wfc": 1, "callback": 1},
+    base_profile = {"weights": {"child": 4, "parallel": 4, "map": 3, "step": 5, "wait": 3, "wfc": 1, "callback": 1, "invoke": 2},
                     "max_depth": 3, "max_ops": 22, "fail_p": 0.15, "blocks": [0, 0, 0.05, 0.5, 2.0, 4.0], "lines_p": 0.5}
     quick_cases = 300
+
+    def tune(self, cfg, prof, rng):
+        add_flaky_serdes(cfg, rng, 0.25)  # a call that fails before anything is recorded still occupies its position
 
     def golden_info(self, w, ix):
         return {"ids": oracles.c08_path_ids(ix)}
@@ -1155,7 +1188,8 @@ class C16(Check):
         rl = (6 * 1024 * 1024 - 50) if real else rng.choice([3000, 9000, 30000])
 
         def big(limit):
-            return ["big", max(1, rng.choice([limit - 60, limit - 3, limit - 1, limit, limit + 1, limit + 40, 2 * limit]))]
+            # a str of n characters serialises to n + 2 characters: limit - 2 is the payload of exactly `limit` characters
+            return ["big", max(1, rng.choice([limit - 60, limit - 3, limit - 2, limit - 2, limit - 1, limit, limit + 1, limit + 40, 2 * limit]))]
 
         body = []
         kind = rng.choice(["child", "parallel", "map", "nested", "handler", "error", "handler"])
@@ -1406,8 +1440,14 @@ class C18(Check):
         rng.shuffle(plans)
         n = 5 if tier == "quick" else 12
         plans = plans[:n]
-        for k in response_page_fetches(w)[:2]:
+        rpf = response_page_fetches(w)
+        for k in rng.sample(rpf, min(2, len(rpf))):
             plans.append([{"kind": "apierr", "call": k, "err": rng.choice(classes), "applied": False}])
+        if w.api_calls:
+            # a call that stays in flight for a long time (client-side retries of read timeouts) and then fails
+            k = rng.randrange(1, w.api_calls + 1)
+            plans.append([{"kind": "slow", "call": k, "s": rng.choice([20.0, 61.0, 90.0, 400.0])},
+                          {"kind": "apierr", "call": k, "err": rng.choice(classes), "applied": False}])
         prof2 = dict(prof, fault_kinds=["crash-api", "crash-fn"])
         plans.append(gen_fault_plan(rng, st, prof2))
         return [p for p in plans if p]
